@@ -1400,7 +1400,7 @@ func (c *Ctx) cursorFooterProof(parse *ssa.Function) (how, bad string) {
 	// the cursor as a closure over a local position: end := data.Len(); read := func(w int) { start := end - w;
 	// Read(start, start+w); end = start }
 	closureCursor := func() (*ssa.Parameter, string, bool) {
-		if h.Parent() == nil || len(h.Params) == 0 {
+		if len(h.Params) == 0 {
 			return nil, "", false
 		}
 		start, ok := rd.Call.Args[1].(*ssa.BinOp)
@@ -1411,9 +1411,30 @@ func (c *Ctx) cursorFooterProof(parse *ssa.Function) (how, bad string) {
 		if !ok || posLd.Op != token.MUL {
 			return nil, "", false
 		}
-		fv, ok := posLd.X.(*ssa.FreeVar)
-		if !ok {
-			return nil, "", false
+		fv, isFree := posLd.X.(*ssa.FreeVar)
+		var posFieldVar *types.Var
+		var posOwner *types.Named
+		if !isFree {
+			// ... or over a field of the reading method's receiver: offset := r.pos - w; Read(offset, offset+w); r.pos = offset
+			fa, isFA := posLd.X.(*ssa.FieldAddr)
+			if !isFA || h.Signature.Recv() == nil || fa.X != ssa.Value(h.Params[0]) {
+				return nil, "", false
+			}
+			posOwner, posFieldVar = fieldAddrInfo(fa)
+			if posFieldVar == nil || posOwner == nil {
+				return nil, "", false
+			}
+		}
+		isPosAddr := func(a ssa.Value) bool {
+			if isFree {
+				return a == ssa.Value(fv)
+			}
+			fa, ok := a.(*ssa.FieldAddr)
+			if !ok {
+				return false
+			}
+			_, f := fieldAddrInfo(fa)
+			return f == posFieldVar
 		}
 		width, ok := start.Y.(*ssa.Parameter)
 		if !ok {
@@ -1427,7 +1448,7 @@ func (c *Ctx) cursorFooterProof(parse *ssa.Function) (how, bad string) {
 		n := 0
 		for _, b := range h.Blocks {
 			for _, ins := range b.Instrs {
-				if st, ok := ins.(*ssa.Store); ok && st.Addr == ssa.Value(fv) {
+				if st, ok := ins.(*ssa.Store); ok && isPosAddr(st.Addr) {
 					n++
 					if st.Val != ssa.Value(start) {
 						return nil, "the closure moves its position other than back by the width it reads (" + c.pos(st.Pos()) + ")", false
@@ -1437,6 +1458,18 @@ func (c *Ctx) cursorFooterProof(parse *ssa.Function) (how, bad string) {
 		}
 		if n != 1 {
 			return nil, "the closure does not step its position back exactly once per read", false
+		}
+		if !isFree {
+			// every other store to the position field: data.Len()
+			for _, st := range c.census().fieldStores[fieldKey{posOwner.Obj(), posFieldVar.Name()}] {
+				if st.fn == h {
+					continue
+				}
+				if ov := evalOff(st.val, map[*ssa.Parameter]offVal{}, 0); !(ov.ok && ov.rel && ov.v == 0) {
+					return nil, "the footer cursor's position is set at " + c.pos(st.ins.Pos()) + " to something other than data.Len()", false
+				}
+			}
+			return width, "", true
 		}
 		// the cell in the enclosing function: set to data.Len() and nothing else
 		var cell ssa.Value
